@@ -36,6 +36,7 @@ def make_threading(kernel, faults=None, stats=None):
 
         def acquire(self, blocking=True, timeout=-1):
             if k.inert():
+                k.abort_if_killed()
                 return True
             vt = k.me()
             k.yield_point('lock.acquire', self.name)
@@ -71,6 +72,7 @@ def make_threading(kernel, faults=None, stats=None):
 
         def acquire(self, blocking=True, timeout=-1):
             if k.inert():
+                k.abort_if_killed()
                 return True
             vt = k.me()
             k.yield_point('rlock.acquire', self.name)
@@ -141,6 +143,7 @@ def make_threading(kernel, faults=None, stats=None):
 
         def wait(self, timeout=None):
             if k.inert():
+                k.abort_if_killed()
                 return True
             if not self._owned():
                 raise RuntimeError('cannot wait on un-acquired lock')
